@@ -511,6 +511,9 @@ class ExprCompiler(object):
             raise Unsupported("chained comparison")
         a, b = self.compile(expr.left, ctx), self.compile(expr.comparators[0], ctx)
         op = expr.ops[0]
+        if isinstance(op, (ast.Is, ast.IsNot)) and {a.sort, b.sort} & {"none"} and {a.sort, b.sort} & {"int", "bool"}:
+            # a number is never None (None and 0 share an encoding: decided statically from the sorts)
+            return const("bool", isinstance(op, ast.IsNot))
         if isinstance(op, (ast.Is, ast.IsNot, ast.Eq, ast.NotEq)):
             fa, fb = as_id(a, self.U), as_id(b, self.U)
             if isinstance(op, (ast.Is, ast.Eq)):
@@ -581,6 +584,15 @@ class ExprCompiler(object):
             if recv.sort == "Opaque" and f.attr in ("getLogger",):
                 return const("Opaque", OPAQUE)
         raise Unsupported("call in expression: {0}".format(ast.dump(expr)[:100]))
+
+
+def has_timeout(val):
+    """closure: does this timeout argument denote a time-out (i.e. is it not None)?"""
+    if val.sort in ("int", "bool"):
+        return lambda env: True
+    if val.sort == "none":
+        return lambda env: False
+    return lambda env, f=val.fn: ne(f(env), NONE)
 
 
 def event_flag(env, val, U):
@@ -660,6 +672,11 @@ def matches(handler_type, exc_class):
         if name not in EXC_CLASSES:
             raise Unsupported("exception class {0}".format(name))
         caught = EXC_CLASSES[name]
+        if exc_class == "BaseException*":
+            # SystemExit-like: only `except BaseException` (and a bare except) catch it
+            if name == "BaseException":
+                return True
+            continue
         if caught is None or exc_class in caught:
             return True
     return False
@@ -1606,11 +1623,12 @@ class StmtLowering(object):
             if name == "wait":
                 timeout = arg(0, const("none", NONE))
 
+                timed = has_timeout(timeout)
+
                 def outcomes(env):
                     flag = event_flag(env, recv, U)
-                    t = timeout.fn(env)
                     return [PrimOutcome(flag, None, None, True),
-                            PrimOutcome(and_(not_(flag), ne(t, NONE)), None, None, False)]
+                            PrimOutcome(and_(not_(flag), timed(env)), None, None, False)]
 
                 return finish("Event.wait", outcomes, "bool")
         # ---- Queue ---------------------------------------------------------------------------
@@ -1632,7 +1650,7 @@ class StmtLowering(object):
                 def outcomes(env):
                     n = env.g(b + ".len")
                     nonempty = gt(n, 0)
-                    may_timeout = or_(not_(truthy(block.fn(env))), ne(timeout.fn(env), NONE))
+                    may_timeout = or_(not_(truthy(block.fn(env))), has_timeout(timeout)(env))
                     return [PrimOutcome(and_(free(env), nonempty), pop_front, None, env.g(b + ".item[0]")),
                             PrimOutcome(and_(free(env), not_(nonempty), may_timeout), None, "Empty", U.EXC_EMPTY)]
 
@@ -1653,7 +1671,7 @@ class StmtLowering(object):
                         upd[b + ".overflow"] = or_(env.g(b + ".overflow"), ge(n, U.Q - 1))
 
                     return [PrimOutcome(and_(free(env), not_(full)), eff, None, NONE),
-                            PrimOutcome(and_(free(env), full, ne(timeout.fn(env), NONE)), None, "Full", U.EXC_FULL)]
+                            PrimOutcome(and_(free(env), full, has_timeout(timeout)(env)), None, "Full", U.EXC_FULL)]
 
                 return finish("Queue.put", outcomes, "none", raises=("Full",))
             if name == "task_done":
@@ -1672,8 +1690,8 @@ class StmtLowering(object):
         if recv.sort == "Cond" and name == "wait":
             b = recv.base
             timeout = arg(0, const("none", NONE))
-            if timeout.const == NONE:
-                raise Unsupported("Condition.wait without timeout")
+            # (wait(None) would need notification tracking; every call site that can reach this
+            # statement passes a number -- with None the code takes the Queue.join() branch)
 
             def reacquire(env):
                 return [(eq(env.g(b + ".mutex"), -1), {b + ".mutex": env.tid}, k.pc)]
@@ -1708,7 +1726,7 @@ class StmtLowering(object):
 
                 def outcomes(env):
                     dead = ne(env.arr("W.state", recv.fn(env), U.W), 2)
-                    return [PrimOutcome(or_(dead, ne(timeout.fn(env), NONE)), None, None, NONE)]
+                    return [PrimOutcome(or_(dead, has_timeout(timeout)(env)), None, None, NONE)]
 
                 return finish("Thread.join", outcomes, "none")
         # ---- list of threads ---------------------------------------------------------------------
@@ -1763,6 +1781,7 @@ class StmtLowering(object):
             full = None
         cur = lo.declare_local(ctx, "_task")
         raise_t = self.raise_target(ctx, "Exception*")
+        raise_base = self.raise_target(ctx, "BaseException*") if "raise_base" in U.task_kinds else None
 
         def end(env):
             idx = env.l(cur)
@@ -1776,7 +1795,10 @@ class StmtLowering(object):
                 upd = {"running": sub(env.g("running"), 1), "finished[{0}]".format(i): True}
                 if kind.startswith("open"):
                     upd["G.flag[{0}]".format(int(kind[4:] or 0))] = True
-                if kind == "raise":
+                if kind == "raise_base":
+                    upd[env.lname("exc")] = U.EXC0 + i
+                    outs.append((and_(here, gate_ok), upd, raise_base.pc))
+                elif kind == "raise":
                     upd[env.lname("exc")] = U.EXC0 + i
                     outs.append((and_(here, gate_ok), upd, raise_t.pc))
                 else:
@@ -1885,6 +1907,7 @@ def build_system(source, filename, universe, client_programs, allow_start_failur
         lo.scenario_consts["GATE{0}".format(g)] = Val("Event", (lambda env, g=g: g), "G", const=g)
     lo.scenario_consts["TIMEOUT"] = const("id", U.EXC_TIMEOUT)
     lo.scenario_consts["TMO"] = const("int", 1)
+    lo.scenario_consts["NOWAIT"] = const("int", 0)
     sl = StmtLowering(lo)
     lo.sl = sl
     system = lo.system
